@@ -20,9 +20,9 @@ FALLBACK_DEFS = ['-DPACKAGE_NAME="radsecproxy"', '-DPACKAGE_TARNAME="radsecproxy
 
 # repo files compiled as they are
 PLAIN = ["dtls", "fticks", "fticks_hashmac", "gconfig", "hash", "list",
-         "radmsg", "tls", "tlv11", "util"]
+         "radmsg", "tlv11", "util"]
 # repo files compiled through a harness TU that #includes them textually
-WRAPPED = {"radsecproxy": "h_rsp", "tlscommon": "h_tls", "debug": "h_debug", "hostport": "h_hostport", "rewrite": "h_rewrite", "udp": "h_udp", "dns": "h_dns", "tcp": "h_tcp"}
+WRAPPED = {"radsecproxy": "h_rsp", "tlscommon": "h_tls", "debug": "h_debug", "hostport": "h_hostport", "rewrite": "h_rewrite", "udp": "h_udp", "dns": "h_dns", "tcp": "h_tcp", "tls": "h_tlssrv"}
 EXTRA = ["h_main", "h_misc", "h_world"]
 
 
